@@ -13,6 +13,7 @@ package groupsig
 //@ spec abstract fn sigOK(pk Pubkey, m Bytes, s Signature) bool
 //@ spec abstract fn hexOf(id ID) string
 //@ spec abstract fn idOf(b Bytes) ID
+//@ spec abstract fn sigValid(s Signature) bool
 
 //@ func VerifySig
 //@   option trusted
@@ -44,6 +45,7 @@ package groupsig
 
 //@ func Signature.IsValid
 //@   option trusted
+//@   ensures result == sigValid(sig)
 //@   modifies nothing
 
 //@ func Signature.GetHexString
